@@ -7,7 +7,9 @@ ConfigBatchListenRequest listen / un-listen, publishes and removes over HTTP and
 Oracle of part 2: every content-changing publish / remove of k while (client, k) is subscribed and connected produces a
 ConfigChangeNotifyRequest naming k on that client's stream within 2 s; a listen request whose md5 differs from the
 current one is answered with k in changedConfigs. Nothing is demanded after un-listen / disconnect; extra
-notifications are allowed."""
+notifications are allowed.
+Part 3 (`cluster_part`): real 3-node cluster, HTTP long-poll listeners and gRPC subscribers on leader and followers, changes
+through leader and followers; bound 5 s after the acknowledgement."""
 import hashlib
 import json
 import random
@@ -431,6 +433,149 @@ def grpc_part(out, wd, tier, seed):
         node.kill()
 
 
+CLUSTER_BOUND_S = 5.0
+
+
+def cluster_part(out, wd, tier, seed):
+    """part 3: a real 3-node cluster. A listener (HTTP long-poll on /nacos/v1/cs/configs/listener, or a gRPC subscriber) waits
+    on node L holding the CURRENT md5 of a key; the key is then created / updated / removed through node P (leader or
+    follower, same node as L or another one). The listener must be told within CLUSTER_BOUND_S of the acknowledgement
+    (replication to L included) - never left waiting until its own time-out."""
+    import os
+    from urllib.parse import unquote
+    rnd = random.Random(seed * 131 + 3)
+    cl = procrig.Cluster(os.path.join(wd, "cl"), 3, env={"RUST_LOG": "warn"})
+    facts = {"rounds": 0, "judged": 0, "skipped_unacknowledged": 0, "latency_ms_max": 0.0}
+    lock = threading.Lock()
+    try:
+        cl.start()
+        leader = cl.leader()
+        if leader is None:
+            raise common.Inconclusive("cluster without leader")
+        gcs = {}
+        for nd in cl.nodes:
+            g = grpcrig.GrpcClient(nd.grpc_addr, wd, name="c10cl-%d" % nd.id)
+            gcs[nd.id] = g
+        n_rounds = 18 if tier == "quick" else 240
+        plans = []
+        for i in range(n_rounds):
+            plans.append({"i": i, "L": cl.nodes[i % 3], "P": cl.nodes[(i // 3) % 3], "listener": ["http", "grpc"][(i // 9) % 2] if i < 18 else rnd.choice(["http", "grpc"]),
+                          "change": ["update", "create", "remove"][rnd.randrange(3)] if i >= 18 else ["update", "update", "update", "create", "update", "update", "create", "update", "remove"][i % 9],
+                          "tenant": rnd.choice(["", "", "c10t"])})
+
+        def settle(nd, key, want, bound=8.0):
+            d, gr, t = key
+            end = time.time() + bound
+            while time.time() < end:
+                r = nd.get("/nacos/v1/cs/configs", params={"dataId": d, "group": gr, "tenant": t}, timeout=5)
+                got = r.text() if r.status == 200 else None
+                if got == want:
+                    return True
+                time.sleep(0.1)
+            return False
+
+        def one(pl):
+            i, L, P = pl["i"], pl["L"], pl["P"]
+            key = ("c10cl-%d-%d" % (seed, i), "DEFAULT_GROUP", pl["tenant"])
+            d, gr, t = key
+            role = lambda n: "leader" if n is leader else "follower"     # noqa: E731
+            cur = None
+            if pl["change"] != "create":
+                cur = "v0-%d" % i
+                r = leader.post("/nacos/v1/cs/configs", form={"dataId": d, "group": gr, "tenant": t, "content": cur}, timeout=10)
+                if r.status != 200 or not settle(L, key, cur) or not settle(P, key, cur):
+                    return {"skip": "set-up publish not served"}
+            held = md5(cur) if cur is not None else ""
+            res = {}
+            conn = "c%d" % i
+            if pl["listener"] == "http":
+                item = "%s\x02%s\x02%s" % (d, gr, held) + ("\x02%s" % t if t else "") + "\x01"
+
+                def poll():
+                    t0 = time.time()
+                    try:
+                        r = L.post("/nacos/v1/cs/configs/listener", form={"Listening-Configs": item}, headers={"Long-Pulling-Timeout": "14000"}, timeout=25)
+                        res["lp"] = (time.time(), r.status, unquote(r.text()))
+                    except OSError as e:
+                        res["lp"] = (time.time(), -1, repr(e))
+                    res["lp_t0"] = t0
+                th = threading.Thread(target=poll, daemon=True)
+                th.start()
+            else:
+                g = gcs[L.id]
+                g.open_stream(conn, setup={"clientVersion": "Nacos-Java-Client:v2.2.0", "labels": {"source": "sdk", "module": "config"}, "tenant": t}, report=[NOTIFY])
+                r = g.request(conn, "ConfigBatchListenRequest", {"listen": True, "configListenContexts": [{"dataId": d, "group": gr, "tenant": t, "md5": held}]})
+                if not r.get("ok") or r.get("result_code") != 200:
+                    return {"skip": "listen refused: %s" % str(r)[:120]}
+                if (r.get("body") or {}).get("changedConfigs"):
+                    return {"skip": "listener not in sync at subscribe"}
+            time.sleep(rnd.choice([0.3, 0.8, 1.3]))
+            if pl["listener"] == "http" and "lp" in res:
+                return {"skip": "long-poll returned before the change: %s" % str(res["lp"])[:120]}
+            t_call = time.time()
+            if pl["change"] == "remove":
+                r = P.delete("/nacos/v1/cs/configs", params={"dataId": d, "group": gr, "tenant": t}, timeout=10)
+                ok = r.status == 200 and r.text().strip() == "true"
+            else:
+                r = P.post("/nacos/v1/cs/configs", form={"dataId": d, "group": gr, "tenant": t, "content": "v1-%d" % i}, timeout=10)
+                ok = r.status == 200 and r.text().strip() == "true"
+            t_ack = time.time()
+            if not ok:
+                return {"skip": "change not acknowledged", "unacked": True}
+            where = "%s-listener-on-%s/change-through-%s%s" % (pl["listener"], role(L), "same-node" if P is L else role(P), "")
+            if pl["listener"] == "http":
+                th.join(CLUSTER_BOUND_S + 1.0)
+                lp = res.get("lp")
+                told = lp is not None and lp[1] == 200 and d in lp[2]
+                lat = (lp[0] - t_ack) if lp else None
+                late = (not told) or lat > CLUSTER_BOUND_S
+                if late and lp is None:
+                    th.join(16)
+                    lp = res.get("lp")
+                w = {"key": key, "change": pl["change"], "listener_node": L.id, "listener_role": role(L), "publisher_node": P.id, "publisher_role": role(P),
+                     "held_md5": held, "answer": lp and [round(lp[0] - t_ack, 2), lp[1], lp[2][:120]], "bound_s": CLUSTER_BOUND_S, "change_returned_after_ms": round((t_ack - t_call) * 1000, 1)}
+            else:
+                e = gcs[L.id].wait_push(lambda e: e.get("conn") == conn and e.get("type") == NOTIFY and (e.get("body") or {}).get("dataId") == d and e["t_recv"] >= t_call, timeout=CLUSTER_BOUND_S)
+                told = e is not None
+                lat = (e["t_recv"] - t_ack) if e else None
+                late = not told
+                w = {"key": key, "change": pl["change"], "listener_node": L.id, "listener_role": role(L), "publisher_node": P.id, "publisher_role": role(P),
+                     "held_md5": held, "pushes_on_conn": [x.get("body") for x in gcs[L.id].events("push", conn)][-3:], "bound_s": CLUSTER_BOUND_S}
+                gcs[L.id].close_stream(conn)
+            return {"late": late, "where": where, "change": pl["change"], "lat": lat, "witness": w}
+
+        with ThreadPoolExecutor(max_workers=3) as ex:
+            results = list(ex.map(one, plans))
+        for r in results:
+            facts["rounds"] += 1
+            if "skip" in r:
+                if r.get("unacked"):
+                    facts["skipped_unacknowledged"] += 1
+                else:
+                    facts.setdefault("skipped", []).append(r["skip"][:120])
+                continue
+            facts["judged"] += 1
+            out.evaluations += 1
+            if r["late"]:
+                out.violation("cluster/unnotified/%s/%s" % (r["where"], r["change"]), r["witness"])
+            else:
+                out.shape("cluster/notified/%s/%s" % (r["where"], r["change"]))
+                facts["latency_ms_max"] = max(facts["latency_ms_max"], round(max(0.0, r["lat"]) * 1000, 1))
+        if facts["judged"] < n_rounds // 2:
+            facts["inconclusive"] = "fewer than half of the cluster rounds could be judged"
+        out.extra["cluster_part"] = facts
+    except common.Inconclusive as e:
+        facts["inconclusive"] = str(e)[:300]
+        out.extra["cluster_part"] = facts
+    finally:
+        for g in list(locals().get("gcs", {}).values()):
+            try:
+                g.stop()
+            except Exception:
+                pass
+        cl.kill_all()
+
+
 def run(tier, seed):
     common.build(need_bin=True)
     wd = common.workdir("c10")
@@ -460,6 +605,7 @@ def run(tier, seed):
         reports = common.run_vh_shards("c10", shards, args, wd, to, seed)
         merged = common.merge_reports(reports)
         grpc_part(out, wd, tier, seed)
+        cluster_part(out, wd, tier, seed)
         diags = {k: v for k, v in merged["counters"].items() if k.startswith("diag:")}
         merged["counters"] = {k: v for k, v in merged["counters"].items() if not k.startswith("diag:")}
         out.absorb(merged)
